@@ -88,6 +88,15 @@ CHECKS = {
         "Trusted: the harness SPS machine and host model as a reading of sps_low; the generator's termination by construction.",
         "DESIGN.md section 5, C19",
     ),
+    "C06": (
+        "contract monitor: every host role called through the public machine step against a Unicode-scalar / scripted-I/O reference model; table agreement over all 126 roles; signature-mutation rejection",
+        "All 126 roles are enumerated for table agreement (arity, ABI classifier, stack-IR entry, names, harness copy of the standard signature) and for "
+        "signature mutations (each declared type with one structural mutation must be rejected by the real checker, the unmutated one accepted). Text, char and "
+        "bytes roles run on seeded random Unicode strings with boundary indices against an independent model; I/O roles run scripted multi-call sessions on one "
+        "machine over a scratch directory; one caller program reaches every non-numeric slot of lib/std/builtin.zy end to end. Exploration; exhaustive only over the role table.",
+        "Trusted: Rust's char/str as the Unicode reference, the local filesystem semantics (root user: unwritable paths are ENOTDIR/EISDIR paths), the harness's decoding of the returned computation.",
+        "DESIGN.md section 5, C06",
+    ),
     "C07": (
         "renaming metamorphism + enumerated hygiene probes over the real resolver/checker/interpreter: one resolved program printed under 8 naming/blocks strategies must keep acceptance and behaviour (= reference); capture probes must yield a resolve error at the provider's occurrence",
         "Binder identity lives in the harness AST; names are chosen per strategy under a legality rule computed on that AST (no captured free variable; block contributions pairwise distinct), so any accept/behaviour "
